@@ -98,8 +98,10 @@ def digest (g : Geometry) (s : Str) : List (Str × Str × Str) := digestU g (s.m
 
 /-! ### well-formed layouts (the property's quantifier) -/
 
+/-- a non-empty, non-palindromic site over upper-case ACGT; any skip, any overhang length
+(0 = a blunt cutter such as MlyI `GAGTC(5/5)`) -/
 def wfGeometry (g : Geometry) : Bool :=
-  g.site.length ≥ 1 && g.site.all isUpperAcgt && g.site != rcSite g.site && g.oh ≥ 1
+  g.site.length ≥ 1 && g.site.all isUpperAcgt && g.site != rcSite g.site
 
 /-- site occurrences (either orientation) do not overlap one another around the circle -/
 def noOverlap (g : Geometry) (w : Nat → Char) (n : Nat) : Bool :=
